@@ -2,6 +2,7 @@ import Thanos.Common.Parse
 import Thanos.Model.Bucket
 import Thanos.Model.DedupFilter
 import Thanos.Model.Retention
+import Thanos.Model.CleanerHist
 import Thanos.Model.Shipper
 import Thanos.Model.CompactSync
 /-
@@ -22,6 +23,9 @@ import Thanos.Model.CompactSync
           answer: deleted=<ids ascending>
         c32.partial <nowMs> <markedIds> <partials>   partials = <id>:<ulidMs>:<lm>,<lm>,…:<iterFails 0|1>;…
           answer: deleted=<ids ascending>
+        c32.hist <nowMs> <delayMs> <nblocks> <steps>   one long-lived filter + cleaner; blocks 1..nblocks (complete, unmarked)
+          steps = m:<id>:<deletionTimeSec> | u:<id> | s (sync) | i (compactor iteration: sync + clean) ; …
+          answer: i[<deleted ids>] … => <id>[:<markSec>] …          (remaining blocks with their marks)
         (times are absolute, around a nominal base; the Go side shifts them to the wall clock — `shift`
         fields are for the Go side only)
 
@@ -300,8 +304,32 @@ def c33Multi (faults : String) : String :=
     else "sync=ok compact=n/a writes-after=n/a"
   | none => "bad-op"
 
+def parseHistStep (t : String) : Option CleanerHist.Step :=
+  match splitChar ':' t with
+  | ["m", i, ts] => do
+    let i ← parseNat? i
+    let ts ← parseInt? ts
+    pure (.mark i ts)
+  | ["u", i] => (parseNat? i).map .unmark
+  | ["s"] => some .sync
+  | ["i"] => some .iterate
+  | _ => none
+
+def c32Hist (now delay nblocks steps : String) : String :=
+  match parseInt? now, parseInt? delay, parseNat? nblocks, (listOf ';' steps).mapM parseHistStep with
+  | some now, some delay, some n, some sts =>
+    let init : CleanerHist.St := ⟨(List.range n).map fun i => (i + 1, none), []⟩
+    let r := CleanerHist.run CleanerHist.codeReplace (now * Retention.nsPerMs) (delay * Retention.nsPerMs) init sts
+    let its := r.2.map fun d => s!"i[{showNats "," (sortNats d)}]"
+    let rest := r.1.blocks.map fun p => match p.2 with
+      | some t => s!"{p.1}:{t}"
+      | none => toString p.1
+    joinWith " " its ++ " => " ++ joinWith " " rest
+  | _, _, _, _ => "bad-op"
+
 def handle : List String → String
   | ["blk.run", chunks, index, steps] => blkRun chunks index steps
+  | ["c32.hist", now, delay, nblocks, steps] => c32Hist now delay nblocks steps
   | ["c33.multi", _, _, _, _, _, faults] => c33Multi faults
   | ["c33.fault", _, _, _, _, kind, _, outcome] => c33Fault kind outcome
   | ["ship.run", cfg, blocks, steps] => shipRun cfg blocks steps
